@@ -1108,3 +1108,86 @@ func Identity(t *rapid.T, label string) string {
 	}
 	return string(rapid.SliceOfN(rapid.Byte(), 0, 80).Draw(t, label+".raw"))
 }
+
+// Semantic draws a small message that MEANS something in the protocol (and might be taken for an instruction by code that
+// looks at what it protects or unprotects): empty and Delete INFORMATIONAL exchanges, error and status notifications,
+// re-keying requests, an IKE_AUTH exchange - as request and as response, from either end.
+func Semantic(t *rapid.T) model.Message {
+	h := model.Header{ISPI: rapid.Uint64().Draw(t, "sem.ispi") | 1, RSPI: rapid.Uint64().Draw(t, "sem.rspi") | 1, Major: 2,
+		Flags: rapid.SampledFrom([]uint8{0x08, 0x00, 0x20, 0x28}).Draw(t, "sem.flags"), MsgID: uint32(rapid.IntRange(0, 5).Draw(t, "sem.msgid"))}
+	spi4 := func() model.Bytes { return Fill(t, "sem.spi", 4) }
+	notify := func(ty uint16, proto uint8, spi, data model.Bytes) model.Payload {
+		return model.Payload{Kind: model.KNotify, Notify: &model.Notify{Protocol: proto, Type: ty, SPI: spi, Data: data}}
+	}
+	sa := func(proto uint8, spi model.Bytes) model.Payload {
+		trs := []model.Transform{{Type: 1, ID: 12, Attr: &model.Attr{TV: true, Type: 14, Value: 256}}, {Type: 3, ID: 12}}
+		if proto == 1 {
+			trs = append(trs, model.Transform{Type: 2, ID: 5}, model.Transform{Type: 4, ID: 14})
+		} else {
+			trs = append(trs, model.Transform{Type: 5, ID: 0})
+		}
+		return model.Payload{Kind: model.KSA, SA: &model.SA{Proposals: []model.Proposal{{Number: 1, Protocol: proto, SPI: spi, Transforms: trs}}}}
+	}
+	ts := func(k string) model.Payload {
+		return model.Payload{Kind: k, TS: &model.TS{Selectors: []model.Selector{{Type: 7, StartPort: 0, EndPort: 65535, StartAddr: model.Bytes{0, 0, 0, 0}, EndAddr: model.Bytes{255, 255, 255, 255}}}}}
+	}
+	nonce := model.Payload{Kind: model.KNonce, Data: Fill(t, "sem.nonce", 32)}
+	var m model.Message
+	switch rapid.IntRange(0, 15).Draw(t, "sem.kind") {
+	case 0:
+		h.Exchange = 37 // liveness check
+	case 1:
+		h.Exchange = 37
+		m.Payloads = []model.Payload{{Kind: model.KDelete, Delete: &model.Delete{Protocol: 1}}} // delete the IKE SA
+	case 2:
+		h.Exchange = 37
+		n := rapid.IntRange(1, 3).Draw(t, "sem.nspi")
+		d := &model.Delete{Protocol: 3, SPISize: 4, Count: uint16(n)}
+		for i := 0; i < n; i++ {
+			d.SPIs = append(d.SPIs, rapid.Uint32().Draw(t, "sem.dspi"))
+		}
+		m.Payloads = []model.Payload{{Kind: model.KDelete, Delete: d}}
+	case 3, 4, 5:
+		h.Exchange = uint8(rapid.SampledFrom([]int{35, 36, 37}).Draw(t, "sem.exch"))
+		ty := rapid.SampledFrom([]uint16{1, 4, 5, 7, 9, 11, 14, 17, 24, 34, 35, 36, 37, 38, 39, 40, 41, 43, 44, 16384, 16385, 16386, 16387, 16390, 16391, 16392, 16394, 16395, 16404, 16406, 16407, 16408}).Draw(t, "sem.ntype")
+		m.Payloads = []model.Payload{notify(ty, 0, nil, nil)}
+		if ty == 17 {
+			m.Payloads[0].Notify.Data = model.Bytes{0, 14}
+		}
+	case 6:
+		h.Exchange = 36 // rekey a Child SA
+		m.Payloads = []model.Payload{notify(16393, 3, spi4(), nil), sa(3, spi4()), nonce, ts(model.KTSi), ts(model.KTSr)}
+	case 7:
+		h.Exchange = 36 // rekey the IKE SA
+		m.Payloads = []model.Payload{sa(1, Fill(t, "sem.spi8", 8)), nonce, {Kind: model.KKE, KE: &model.KE{Group: 14, Data: Fill(t, "sem.ke", 256)}}}
+	case 8:
+		h.Exchange = 36 // new Child SA
+		m.Payloads = []model.Payload{sa(3, spi4()), nonce, ts(model.KTSi), ts(model.KTSr)}
+	case 9:
+		h.Exchange = 35
+		m.Payloads = []model.Payload{{Kind: model.KIDi, ID: &model.ID{Type: 2, Data: model.Bytes("ue.example.org")}}, {Kind: model.KAUTH, Auth: &model.Auth{Method: 2, Data: Fill(t, "sem.auth", 32)}},
+			sa(3, spi4()), ts(model.KTSi), ts(model.KTSr)}
+	case 10:
+		h.Exchange = 35
+		e := model.EAP{Code: 3, Identifier: 7, Kind: model.ENone}
+		m.Payloads = []model.Payload{{Kind: model.KEAP, EAP: &e}}
+	case 11:
+		h.Exchange = 35
+		e := model.EAP{Code: 4, Identifier: 7, Kind: model.ENone}
+		m.Payloads = []model.Payload{{Kind: model.KEAP, EAP: &e}, notify(24, 0, nil, nil)}
+	case 12:
+		h.Exchange = 37
+		m.Payloads = []model.Payload{{Kind: model.KCP, CP: &model.CP{Type: 1, Attrs: []model.CPAttr{{Type: 1}, {Type: 3}}}}}
+	case 13:
+		h.Exchange = 37
+		m.Payloads = []model.Payload{notify(16384, 0, nil, nil), {Kind: model.KDelete, Delete: &model.Delete{Protocol: 1}}}
+	case 14:
+		h.Exchange = 34 // an initial exchange message under protection (unusual, legal in the domain)
+		m.Payloads = []model.Payload{sa(1, nil), nonce}
+	default:
+		h.Exchange = 37
+		m.Payloads = []model.Payload{{Kind: model.KVendor, Data: VendorID(t)}}
+	}
+	m.Header = h
+	return m
+}
